@@ -79,6 +79,7 @@ func main() {
 		}
 		p := loadProg(*repo, bc)
 		r.curCfg = c
+		curProg = p
 		func() {
 			defer func() {
 				if e := recover(); e != nil {
